@@ -66,7 +66,7 @@ claim("C08", TV,
       "For every program of F7/F7R/F6/F6R/F11/F12E/F13 (effectful host calls at every operand, argument, field, list element, f-string part, guard, "
       "condition and statement position) and every "
       "jointly feasible path pair: the sequence of host calls and their argument values in the emitted CLIF equals the reference trace, for all inputs.",
-      "accept/reject and method receivers are outside; loop bound 3/4.",
+      "Includes registered methods (receiver first), string + / += operands and filtermaps (nothing after accept / reject runs, also from inside loops and match arms); loop bound 3/4.",
       "translation validation of the host-call trace of emitted CLIF against a reference semantics in z3", "T", "DESIGN.md 5/C08")
 claim("C09", MC,
       "Kani/CBMC: number / hex / AS-number / quoted-literal / identifier recognisers vs reference scanners written from the documented grammar on every "
